@@ -65,7 +65,10 @@ class Kit(object):
                 fields = list(fields)
                 rng.shuffle(fields)
             for f in fields:
-                ops.append(_sl({"op": "di_set", "field": f, "value": K[f]}, slot))
+                if f == "disc_numbers" and rng.random() < 0.4:
+                    ops.append(_sl({"op": "di_inplace", "clear": True, "append": list(K[f])}, slot))
+                else:
+                    ops.append(_sl({"op": "di_set", "field": f, "value": K[f]}, slot))
             return ops
         ops = [_sl({"op": "mf_init", "compose": dict(K["compose"])}, slot)]
         adds = [dict(a) for a in K["adds"]]
@@ -157,6 +160,16 @@ class Kit(object):
                     _sl({"op": "di_set", "field": site["field"], "value": site["good"]}, slot))
         return (_sl({"op": "mf_set", "field": site["field"], "value": site["bad"]}, slot),
                 _sl({"op": "mf_set", "field": site["field"], "value": site["good"]}, slot))
+
+    def bystander(self, rng, tier="quick", slot=7):
+        """A SECOND object of the same format with DIFFERENT content, alive in the same process while the history of the
+        main object runs (state must not leak between objects: shared mutable defaults, class-level caches...).
+        Returns (build ops to interleave, final ops that persist and restart it against its own model)."""
+        K2 = self.content(rng, tier)
+        build = self.build(K2, rng, slot=slot)
+        p2 = self.path + ".bystander"
+        final = [_sl({"op": "dump", "path": p2}, slot), _sl({"op": "restart", "path": p2, "via": pick(rng, ["path", "handle", "loads"]), "offset": rng.randint(0, 200)}, slot)]
+        return build, final
 
     def cfg(self, rng):
         return {"simset": pick(rng, ["insertion", "shuffle", "reverse", "sorted"])}
